@@ -13,6 +13,8 @@ CLASSES = [
     ('A1', ('class', None, [('k', False, A)])),
     # a class whose member is a table with a non-associative row (the expression ends before a chained operator)
     ('Cmp', ('class', None, [('e', False, ('optable', ('ref', 'A1'), (('infix', (('str', 'b'),)),))), ('t', False, ('opt', B))])),
+    # a class whose member is a choice with a bare lookahead as non-last alternative (the lookahead fails after consuming)
+    ('Look', ('class', None, [('t', False, ('choice', ('expect', ('seq', K, ('str', 'bb'))), ('ref', 'A1')))])),
     # a class whose member is a choice that cannot fail, after an alternative that consumes and then fails
     ('Alt', ('class', None, [('v', False, ('choice', ('seq', K, ('str', 'bb')), ('opt', ('ref', 'A1'))))])),
 ]
@@ -32,6 +34,7 @@ STARTS = [
     ('expectnot', ('rule', None, ('seq', ('expectnot', K2), ('star', K))), True),
     ('optable-infix', ('rule', None, ('star', ('ref', 'Cmp'))), True),
     ('always-choice', ('rule', None, ('star', ('seq', ('ref', 'Alt'), ('opt', B)))), True),
+    ('lookahead-alternative', ('rule', None, ('star', ('seq', ('ref', 'Look'), ('opt', B)))), False),
     # instances held in dict values and tuples built by inline Python
     ('dict-values', ('rule', None, ('apply', ('star', K), ('py', "lambda xs: {'items': xs, 'first': xs[:1], 'n': len(xs)}"))), False),
     ('tuple-values', ('rule', None, ('apply', ('seq', ('opt', K2), ('star', K)), ('py', 'lambda p: (p[0], tuple(p[1]))'))), False),
@@ -39,7 +42,9 @@ STARTS = [
 # (name, patterns, style, input alphabet): \r and form feed are not line breaks for sourcer
 IGNORES = [('none', [], 'named', 'ab\\r\\n'), ('sp', [('re', ' +')], 'named', 'ab\\s\\n'),
            ('spnl', [('re', '[ \\n]+')], 'named', 'ab\\s\\n'), ('spnl-anon', [('re', '[ \\n]+')], 'anon', 'ab\\s\\n'),
-           ('ws', [('re', '\\s+')], 'named', 'ab\\r\\f')]
+           ('ws', [('re', '\\s+')], 'named', 'ab\\r\\f'),
+           # an ignorable made of two literals, listed last (it can fail after consuming its first part)
+           ('multi-last', [('re', ' +'), ('seq', ('str', '\r'), ('str', '\n'))], 'named', 'ab\\r\\n\\s')]
 
 
 def spans_in(v, out):
